@@ -1,4 +1,5 @@
 mod cluster;
+mod codecs;
 mod falsify;
 mod gen;
 mod json;
@@ -164,7 +165,7 @@ fn main() {
             let prop = args.get(2).cloned().unwrap_or_default();
             let seed: u64 = arg(&args, "--seed", "1").parse().unwrap();
             let budget: u64 = arg(&args, "--budget", "100").parse().unwrap();
-            match falsify::run(&prop, seed, budget).or_else(|| cluster::run(&prop, seed, budget)) {
+            match falsify::run(&prop, seed, budget).or_else(|| cluster::run(&prop, seed, budget)).or_else(|| if prop == "C20" { Some(codecs::c20(seed, budget)) } else { None }) {
                 Some(o) => println!("{}", o.to_json().to_string()),
                 None => {
                     eprintln!("no falsifier for {prop}");
